@@ -109,7 +109,9 @@ class C08(vlib.Check):
             yield case
 
         # exports of databases large enough that an implementation working block-wise meets several blocks
-        for rows, bits in ([(300, 16384), (4500, 1024)] if self.tier == "quick" else [(300, 16384), (4500, 1024), (70000, 64), (9000, 1024), (40, 2 ** 17)]):
+        # (a few MB), and one whose text is longer than 2^24 characters (thorough: 2^25)
+        for rows, bits in ([(300, 16384), (4500, 1024), (1050, 16384), (2100, 16384)] if self.tier == "quick" else
+                           [(300, 16384), (4500, 1024), (70000, 64), (9000, 1024), (40, 2 ** 17), (1050, 16384), (4200, 4096), (2100, 16384), (70000, 512), (4200, 16384)]):
             self.count("t:bigtxt")
             yield {"t": "bigtxt", "rows": rows + rng.randrange(50), "bits": bits, "seed": rng.randrange(10 ** 6), "ext": rng.choice([".txt", ".txt.gz"])}
         # one path written several times with databases of different sizes (large, then small, then medium), each read back
@@ -148,8 +150,10 @@ class C08(vlib.Check):
             return {"key": "savetxt-wrong:line-count", "what": "%d lines for %d rows" % (len(lines), case["rows"])}
         for i, ln in enumerate(lines):
             bs, _, nm = ln.partition(" ")
-            on = arr.indices[arr.indptr[i]:arr.indptr[i + 1]].tolist()
-            if len(bs) != case["bits"] or [j for j, ch in enumerate(bs) if ch == "1"] != sorted(on) or set(bs) - {"0", "1"}:
+            want = bytearray(b"0" * case["bits"])
+            for j in arr.indices[arr.indptr[i]:arr.indptr[i + 1]].tolist():
+                want[j] = 49
+            if bs.encode("ascii", "replace") != bytes(want):
                 return {"key": "savetxt-wrong:large:bits", "what": "line %d of %d is not row %d's bit string" % (i, len(lines), i)}
             if nm != fpn[i]:
                 return {"key": "savetxt-wrong:large:name", "what": "line %d of a %d x %d export carries the name %r, row %d is named %r" % (i, case["rows"], case["bits"], nm, i, fpn[i])}
